@@ -448,8 +448,23 @@ func (c01) Run(ctx *Ctx, ci interface{}) (o Outcome) {
 		}
 	}()
 
+	// objects a copy was taken from (Clone, SubAlign, SelectSites, Transpose, RandSubAlign: the copy owns its data):
+	// the history goes on with the copy, the original must stay what it was
+	type leftBehind struct {
+		obj  align.SeqBag
+		rows []HRow
+		by   string
+	}
+	var left []leftBehind
 	// check is evaluated after every operation. modelled: the model fixes the content.
 	check := func(modelled bool) bool {
+		for _, lb := range left {
+			now, _ := observe(lb.obj)
+			if d := rowsEqual(now, lb.rows); d != "" {
+				fail("original-changed-through-copy", "the object that %s was called on changed when its result was operated on: %s\nit was:\n%s", lb.by, d, fmtRows(lb.rows))
+				return false
+			}
+		}
 		rows, prob := observe(cont)
 		if prob != "" {
 			fail("unreadable-row", "%s", prob)
@@ -520,6 +535,12 @@ func (c01) Run(ctx *Ctx, ci interface{}) (o Outcome) {
 		curKind = op.Kind
 		n := len(m.rows)
 		al, isAl := cont.(align.Alignment)
+		contBefore := cont
+		var rowsBefore []HRow
+		switch op.Kind {
+		case "clone", "sub-align", "select-sites", "transpose", "rand-sub-align":
+			rowsBefore, _ = observe(cont)
+		}
 		if op.Kind == "translate" && op.N == -1 && isAl && m.aligned && m.length()%3 != 2 {
 			// the known finding: the three phases of L columns have different lengths unless L mod 3 = 2
 			curKind = "translate-3-phases"
@@ -1401,6 +1422,9 @@ func (c01) Run(ctx *Ctx, ci interface{}) (o Outcome) {
 		if !applied {
 			o.Add("operations_not_applicable_in_this_state", 1)
 			continue
+		}
+		if rowsBefore != nil && cont != contBefore && len(left) < 4 {
+			left = append(left, leftBehind{contBefore, rowsBefore, op.Kind})
 		}
 		trail = append(trail, fmtOp(op))
 		kinds = append(kinds, op.Kind)
